@@ -47,12 +47,27 @@ TPick == /\ Ev.ev = "pick" /\ ~dead
               ELSE /\ Mark(IF Ev.b = -1 THEN "panic" ELSE IF Ev.b = -2 THEN "hang" ELSE "unknown-backend")
                    /\ dead' = TRUE /\ UNCHANGED pvars
 
+\* Slow start (C04 with ramping weights): the effective weight of a restarted backend grows with
+\* time, so the event carries the effective weights read just before (wlo/whi = componentwise
+\* min/max of the two snapshots) and after the call.  The reply must be minimal for SOME weight
+\* vector in that box: b's ratio with its largest weight is not above c's ratio with its smallest.
+RangeOK(b) == /\ avail[b] /\ Ev.whi[b] > 0
+              /\ \A c \in B : (avail[c] /\ Ev.wlo[c] > 0) => conns[b] * Ev.wlo[c] <= conns[c] * Ev.whi[b]
+TPickW == /\ Ev.ev = "pickw" /\ ~dead
+          /\ IF Ev.b = 0 - 1 THEN Mark("panic") /\ dead' = TRUE
+             ELSE IF Ev.b = 0 - 2 THEN Mark("hang") /\ dead' = TRUE
+             ELSE IF Ev.b = 0 THEN (IF \E c \in B : avail[c] /\ Ev.wlo[c] > 0 THEN Mark("ReplyOK") /\ dead' = TRUE
+                                    ELSE UNCHANGED <<dead, bad>>)
+             ELSE IF Ev.b \in B /\ RangeOK(Ev.b) THEN UNCHANGED <<dead, bad>>
+             ELSE Mark("ReplyOK") /\ dead' = TRUE
+          /\ hist' = <<>> /\ fresh' = FALSE /\ reply' = NoReply /\ UNCHANGED <<w, avail, conns>>
+
 TFlip == /\ Ev.ev = "flip" /\ ~dead /\ PFlip(Ev.b) /\ UNCHANGED <<dead, bad>>
 TConn == /\ Ev.ev = "conn" /\ ~dead /\ PConn(Ev.b, Ev.d) /\ UNCHANGED <<dead, bad>>
 TUpdate == /\ Ev.ev = "update" /\ ~dead /\ PUpdate(Ev.w, Ev.av, Ev.cn) /\ UNCHANGED <<dead, bad>>
 
 TNext == /\ l <= Len(Trace) /\ l' = l + 1
-         /\ (TLoad \/ Skip \/ TPick \/ TFlip \/ TConn \/ TUpdate)
+         /\ (TLoad \/ Skip \/ TPick \/ TPickW \/ TFlip \/ TConn \/ TUpdate)
 TSpec == TInit /\ [][TNext]_tvars
 
 \* printed when the whole trace has been consumed
